@@ -1481,41 +1481,33 @@ PIP_Decision_Node::solve(const PIP_Problem& pip,
   }
 
   if (has_false_child && false_child == nullptr) {
-    // False child has become unfeasible: merge this node's artificials with
-    // the true child, while removing the local parameter constraints, which
-    // are no longer discriminative.
+    // False child has become unfeasible: *this becomes a decision node
+    // with no false child. Its parameter constraints are still needed:
+    // the true child is the solution only if they are all satisfied.
 #ifdef NOISY_PIP_TREE_STRUCTURE
     indent_and_print(std::cerr, indent_level,
                      "=== DECISION: ELSE BRANCH NOW UNFEASIBLE\n");
-    indent_and_print(std::cerr, indent_level,
-                     "==> merge then branch with parent.\n");
 #endif
-    PIP_Tree_Node* const node = true_child;
-    node->parent_merge();
-    node->set_parent(parent());
-    true_child = nullptr;
-    delete this;
-    PPL_ASSERT(node->OK());
-    return node;
   }
   else if (has_true_child && true_child == nullptr) {
-    // True child has become unfeasible: merge this node's artificials
-    // with the false child.
+    // True child has become unfeasible: the false child is the solution
+    // only if the (single) parameter constraint of this node is not
+    // satisfied. Hence, replace the constraint by its complement and
+    // let the false child become the true child.
 #ifdef NOISY_PIP_TREE_STRUCTURE
     indent_and_print(std::cerr, indent_level,
                      "=== DECISION: THEN BRANCH NOW UNFEASIBLE\n");
     indent_and_print(std::cerr, indent_level,
-                     "==> merge else branch with parent.\n");
+                     "==> complement test and swap branches.\n");
 #endif
-    PIP_Tree_Node* const node = false_child;
-    node->parent_merge();
-    node->set_parent(parent());
+    // NOTE: the last row of context_true has been complemented above.
+    constraints_.clear();
+    add_constraint(context_true[context_true.num_rows() - 1], all_params);
+    true_child = false_child;
     false_child = nullptr;
-    delete this;
-    PPL_ASSERT(node->OK());
-    return node;
   }
-  else if (check_feasible_context) {
+
+  if (check_feasible_context) {
     // Test all constraints for redundancy with the context, and eliminate
     // them if not necessary.
     Constraint_System cs;
